@@ -1,4 +1,5 @@
 import Ccp.Model.Tree
+import Ccp.Spec.BlankKeep
 /-!
 Helper lemmas for C01 (and for the "no banner, no macro" part of C02): what the
 banner / macro passes and the blank-line filter do to the line texts and to the sizes.
@@ -196,8 +197,6 @@ theorem link_plain (cfg : Cfg) (ls : List Str)
   · rfl
 
 /-! ## pass 4: the blank-line filter -/
-
-def nonBlank (s : Str) : Bool := !(strip s).isEmpty
 
 /-- `keptTexts` as a recursion over the two lists -/
 def keptAux : List Str → List Bool → List Str
